@@ -18,6 +18,7 @@ def builtin(u, rel, struct, fn):
     f.replace('Self::Error', 'brush_core::Error', 'R5', 'associated type of the trait impl resolved (text checked)')
     f.resub(r'^[ \t]*let _ = writeln!\((?:[^;]|\n)*?\);\n', '', 'R2', 'diagnostic to stderr whose result is discarded dropped', count=None)
     f.resub(r'\(code_32bit & (0x[0-9A-Fa-f]+)\)', r'(*code_32bit & \1)', 'R10', 'operator impl `&iN & iN` resolved to an explicit deref (Verus has no BitAnd for references)', count=None)
+    f.resub(r'\b_context\b', 'context', 'R6', 'the context parameter is called `context` whether or not the source marks it unused (`_context`)', count=None)
     f.r5_self(struct, fn)
     return f
 
